@@ -229,7 +229,7 @@ pub fn property() -> Property {
             name: "schedules",
             rule: "see property rule",
             cases: (480_000, 2_000_000),
-            fuzz_decode: None,
+            fuzz_decode: Some(crate::fuzzdec::c02_case),
             strategy,
             check,
             required_classes: &[">=3-packets", "first-label-substituted", "crc-only-end-packet", "buffer>4097", "pdu>4095", "skipped-buffer-mid-train", "explicit-reuse"],
